@@ -2,9 +2,9 @@
    Only statements.  Model: Async/Conn.v (Request::poll_input / poll_output / writeable, handler scripts).
    K a u = the content of the active stream still to come from parser state a over future bytes u (Parser/StreamSpec.v);
    [remaining w] = client bytes not yet delivered by the transport; acct = the conservation record of Async/ConnReads.v. *)
-From FV Require Import Base.Bytes Gen.Generated Parser.ReqModel Parser.ReqTargets Parser.StreamModel Parser.AbsStream Parser.StreamSpec Parser.StreamRefine Parser.StreamInv Async.Conn Async.ConnWrites Async.ConnTotal Async.ConnReads Async.ReadsWTargets Async.ReadsWProofs Codec.Varint Codec.NV Codec.Bodies Codec.Vars Parser.ReqWire Parser.StreamFinal Parser.EnvCanon Async.PeerTargets Async.PeerTargets2 Async.PeerTargets3 Async.PeerTargets4 Async.PeerProofs4 Async.BodyTargets Async.BodyProofs.
+From FV Require Import Base.Bytes Gen.Generated Parser.ReqModel Parser.ReqTargets Parser.StreamModel Parser.AbsStream Parser.StreamSpec Parser.StreamRefine Parser.StreamInv Async.Conn Async.ConnWrites Async.ConnTotal Async.ConnReads Async.ReadsWTargets Async.ReadsWProofs Codec.Varint Codec.NV Codec.Bodies Codec.Vars Parser.ReqWire Parser.StreamFinal Parser.EnvCanon Async.PeerTargets Async.PeerTargets2 Async.PeerTargets3 Async.PeerTargets4 Async.PeerProofs4 Async.BodyTargets Async.BodyProofs Async.BodyReadsTargets Async.BodyReadsProofs.
 From FV Require Import Codec.Varint Codec.NV Codec.Bodies Codec.Vars Parser.ReqWire Parser.ReqTargets Parser.AbsStream Parser.StreamSpec Parser.StreamFinal Parser.EnvCanon
-  Async.PeerTargets Async.PeerTargets2 Async.PeerTargets3 Async.PeerTargets4 Async.BodyTargets Async.BodyProofs.
+  Async.PeerTargets Async.PeerTargets2 Async.PeerTargets3 Async.PeerTargets4 Async.BodyTargets Async.BodyProofs Async.BodyReadsTargets Async.BodyReadsProofs.
 
 (* ==== pinned from the proof files (tools/write_props.py) ==== *)
 
@@ -182,6 +182,51 @@ Theorem C09_body_trace_is_ghost :
     (served : nat) (w : world) (acc : list (req * ast * bytes)),
   fst (run_loop_body norm maxc fuel p scripts served w acc) = run_loop norm maxc fuel p scripts served w.
 Proof. exact run_loop_body_erase. Qed.
+
+(* END TO END: at EVERY handler invocation of such a connection (run_loop_inv = run_loop with a ghost trace of
+   script, request state and world at each handler start: C09_invocation_trace_is_ghost) the trace law holds
+   for the script that runs - hw_post: every read-side operation takes its bytes from the front of what is
+   still to come of the selected stream, a newly selected stream delivers its content as of the start of the
+   handler, whatever is written in between and however the run ends - AND the contents it speaks about are
+   those of the request the client sent at that position: the handler of request i reads the body of request i *)
+Theorem C09_connection_reads :
+  forall (norm : bytes -> bytes) (maxc : N) (scripts : list (list N)) (B : N) 
+    (cs : list (N * N * creq)) (pairss : list (list (bytes * bytes))) (w0 : world),
+  B < SIZE_LIMIT - 8 ->
+  scripts_ok true scripts ->
+  Forall any_script scripts ->
+  segs w0 = enc_client cs ->
+  client_segs 0 0 cs ->
+  wlog w0 = [] ->
+  no_fault (wscript w0) ->
+  length pairss = length cs ->
+  (forall (i : nat) (c : creq) (ps : list (bytes * bytes)),
+   nth_error (map snd cs) i = Some c -> nth_error pairss i = Some ps -> creq_fits B c ps) ->
+  len (flat (segs w0)) < SIZE_LIMIT ->
+  let tr := snd (run_loop_inv norm maxc (nb w0 + 4) (new_parser B) scripts 0 w0 []) in
+  (length tr <= length cs)%nat /\
+  (forall (i : nat) (script : list N) (r0 : rstate) (w1 : world) (c : creq) (ps : list (bytes * bytes)),
+   nth_error tr i = Some (script, r0, w1) ->
+   nth_error (map snd cs) i = Some c ->
+   nth_error pairss i = Some ps ->
+   script = nth i scripts (last scripts []) /\
+   sreq (rsp r0) = sent_request norm c ps /\
+   hw_post script (abs (rsp r0)) (remaining w1) r0 w1 (run_handler maxc (length script + 2) script r0 w1) /\
+   stream (rsp r0) = Header.next_input_stream (w_role (c_pre c)) None /\
+   (forall sg : N,
+    In sg (Header.role_input_streams (w_role (c_pre c))) ->
+    (if Header.optN_eqb (Some sg) (stream (rsp r0))
+     then K (abs (rsp r0)) (remaining w1)
+     else F (Some sg) (abs (rsp r0)) (remaining w1)) =
+    content_rcds (w_role (c_pre c)) (w_id (c_pre c)) (Some sg) (c_srs c))).
+Proof. exact connection_reads. Qed.
+
+(* that ghost trace is a pure addition too *)
+Theorem C09_invocation_trace_is_ghost :
+  forall (norm : bytes -> bytes) (maxc : N) (fuel : nat) (p : parser) (scripts : list (list N))
+    (served : nat) (w : world) (acc : list (list N * rstate * world)),
+  fst (run_loop_inv norm maxc fuel p scripts served w acc) = run_loop norm maxc fuel p scripts served w.
+Proof. exact run_loop_inv_erase. Qed.
 
 (* non-vacuity: two keep-alive Responder requests with bodies abc / de: the trace has two entries whose Stdin
    content to come is abc / de *)
